@@ -1,6 +1,13 @@
 """Runs case files through the real code (Rust harness) and through the extracted Coq model (OCaml
 driver) in parallel shards, with a watchdog for the code side, and returns the parsed results."""
-import os, subprocess, time, tempfile, shutil, sys
+import os, subprocess, time, tempfile, shutil, sys, resource
+
+
+def _big_stack():
+    try:
+        resource.setrlimit(resource.RLIMIT_STACK, (resource.RLIM_INFINITY, resource.RLIM_INFINITY))
+    except Exception:
+        pass
 
 ROOT = os.path.dirname(os.path.dirname(os.path.abspath(__file__)))
 HARNESS = os.path.join(ROOT, "harness", "target", "release", "regexml-verif-harness")
@@ -36,14 +43,16 @@ def _shards(lines, k):
     return [lines[i::k] for i in range(k)]
 
 
-def _run_code_shard(path, outpath):
-    """run one shard through the harness with a stall watchdog; returns dict id -> result dict"""
+def _run_shard(cmd, path, outpath, stall_s, slow_tag, raw=False):
+    """run one shard through `cmd run [skip]` with a stall watchdog; returns dict id -> result dict.
+    A case with no progress for stall_s seconds gets {"C": slow_tag} and the run resumes after it."""
     results = {}
     skip = 0
     nlines = sum(1 for _ in open(path))
     while skip < nlines:
         with open(path) as fin, open(outpath, "w") as fout:
-            p = subprocess.Popen([HARNESS, "run", str(skip)], stdin=fin, stdout=fout, stderr=subprocess.DEVNULL)
+            p = subprocess.Popen(cmd + [str(skip)], stdin=fin, stdout=fout, stderr=subprocess.DEVNULL,
+                                 preexec_fn=_big_stack)
             last_size, last_change = -1, time.time()
             stalled = False
             while p.poll() is None:
@@ -51,7 +60,7 @@ def _run_code_shard(path, outpath):
                 sz = os.path.getsize(outpath)
                 if sz != last_size:
                     last_size, last_change = sz, time.time()
-                elif time.time() - last_change > STALL_S:
+                elif time.time() - last_change > stall_s:
                     p.kill()
                     p.wait()
                     stalled = True
@@ -62,23 +71,32 @@ def _run_code_shard(path, outpath):
             if line.startswith("@"):
                 cur = line[1:].strip()
                 continue
-            cid, d = parse_result(line)
-            results[cid] = d
+            if not line.endswith("\n"):
+                break          # a partial line of the killed process
+            if raw:
+                cid, _, rest = line.rstrip("\n").partition("\t")
+                results[cid] = rest
+            else:
+                cid, d = parse_result(line)
+                results[cid] = d
             done += 1
             cur = None
         if stalled or (p.returncode != 0 and cur is not None):
-            # the case whose marker was written but whose result never came
-            results[cur] = {"C": "HANG" if stalled else "ABORT"}
+            tag_ = slow_tag if stalled else "ABORT"
+            results[cur] = tag_ if raw else {"C": tag_}
             skip += done + 1
         elif p.returncode != 0:
-            raise RuntimeError(f"harness failed rc={p.returncode} on {path}")
+            raise RuntimeError(f"{cmd} failed rc={p.returncode} on {path}")
         else:
             break
     return results
 
 
 def run_both(lines, tag="t", code=True, model=True):
-    """lines: list of case lines.  Returns (code_results, model_results) dicts id -> field dict."""
+    """lines: list of case lines.  Returns (code_results, model_results) dicts id -> field dict.
+    A case on which the model itself is slow (exponential backtracking, which the faithful model
+    shares with the code) comes back as {"C": "SLOW"} on the model side; a code-side stall that the
+    model does not share is re-run alone with a 6x deadline before it is called a HANG."""
     os.makedirs(WORK, exist_ok=True)
     d = tempfile.mkdtemp(prefix=f"tie_{tag}_", dir=WORK)
     try:
@@ -89,29 +107,32 @@ def run_both(lines, tag="t", code=True, model=True):
             with open(pth, "w") as f:
                 f.write("\n".join(sh) + "\n")
             paths.append(pth)
-        model_procs = []
-        if model:
-            for i, pth in enumerate(paths):
-                fin = open(pth)
-                fout = open(os.path.join(d, f"m{i}.out"), "w")
-                model_procs.append((subprocess.Popen([DRIVER, "run"], stdin=fin, stdout=fout), fin, fout))
-        code_res = {}
-        if code:
-            from concurrent.futures import ThreadPoolExecutor
-            with ThreadPoolExecutor(max_workers=len(paths)) as ex:
-                futs = [ex.submit(_run_code_shard, pth, os.path.join(d, f"r{i}.out")) for i, pth in enumerate(paths)]
-                for fu in futs:
-                    code_res.update(fu.result())
-        model_res = {}
-        for i, (p, fin, fout) in enumerate(model_procs):
-            rc = p.wait()
-            fin.close()
-            fout.close()
-            if rc != 0:
-                raise RuntimeError(f"model driver failed rc={rc}")
-            for line in open(os.path.join(d, f"m{i}.out")):
-                cid, dd = parse_result(line)
-                model_res[cid] = dd
+        from concurrent.futures import ThreadPoolExecutor
+        code_res, model_res = {}, {}
+        with ThreadPoolExecutor(max_workers=2 * len(paths)) as ex:
+            cf = [ex.submit(_run_shard, [HARNESS, "run"], pth, os.path.join(d, f"r{i}.out"), STALL_S, "HANG")
+                  for i, pth in enumerate(paths)] if code else []
+            mf = [ex.submit(_run_shard, [DRIVER, "run"], pth, os.path.join(d, f"m{i}.out"), STALL_S, "SLOW")
+                  for i, pth in enumerate(paths)] if model else []
+            for fu in cf:
+                code_res.update(fu.result())
+            for fu in mf:
+                model_res.update(fu.result())
+        # code stalls: confirm alone with a longer deadline unless the model is slow there too
+        byid = {l.split("\t", 1)[0]: l for l in lines}
+        for cid, r in list(code_res.items()):
+            if r.get("C") == "HANG":
+                if model and model_res.get(cid, {}).get("C") == "SLOW":
+                    code_res[cid] = {"C": "SLOW"}
+                    continue
+                pth = os.path.join(d, f"again_{cid}.txt")
+                open(pth, "w").write(byid[cid] + "\n")
+                again = _run_shard([HARNESS, "run"], pth, pth + ".out", 6 * STALL_S, "HANG")
+                code_res[cid] = again.get(cid, {"C": "HANG"})
+        if model and code:
+            for cid, r in model_res.items():
+                if r.get("C") == "SLOW":
+                    code_res[cid] = {"C": "SLOW"}       # dropped from the comparison, counted by callers
         return code_res, model_res
     finally:
         shutil.rmtree(d, ignore_errors=True)
@@ -130,7 +151,7 @@ def run_tool(cmd, lines, tag="s"):
             open(pth, "w").write("\n".join(sh) + "\n")
             fin = open(pth)
             fout = open(os.path.join(d, f"o{i}.out"), "w")
-            procs.append((subprocess.Popen(cmd, stdin=fin, stdout=fout, stderr=subprocess.DEVNULL), fin, fout, i))
+            procs.append((subprocess.Popen(cmd, stdin=fin, stdout=fout, stderr=subprocess.DEVNULL, preexec_fn=_big_stack), fin, fout, i))
         res = {}
         for p, fin, fout, i in procs:
             rc = p.wait()
@@ -141,6 +162,31 @@ def run_tool(cmd, lines, tag="s"):
             for line in open(os.path.join(d, f"o{i}.out")):
                 cid, _, rest = line.rstrip("\n").partition("\t")
                 res[cid] = rest
+        return res
+    finally:
+        shutil.rmtree(d, ignore_errors=True)
+
+
+def run_spec(lines, tag="spec"):
+    """the specification oracles (driver spec mode) with the stall watchdog: a call that does not
+    come back within STALL_S is answered "slow" and skipped by the callers"""
+    if not lines:
+        return {}
+    os.makedirs(WORK, exist_ok=True)
+    d = tempfile.mkdtemp(prefix=f"spec_{tag}_", dir=WORK)
+    try:
+        k = max(1, min(JOBS, (len(lines) + 99) // 100))
+        shards = [lines[i::k] for i in range(k)]
+        from concurrent.futures import ThreadPoolExecutor
+        res = {}
+        futs = []
+        with ThreadPoolExecutor(max_workers=k) as ex:
+            for i, sh in enumerate(shards):
+                pth = os.path.join(d, f"c{i}.txt")
+                open(pth, "w").write("\n".join(sh) + "\n")
+                futs.append(ex.submit(_run_shard, [DRIVER, "spec"], pth, os.path.join(d, f"o{i}.out"), STALL_S, "slow", True))
+            for fu in futs:
+                res.update(fu.result())
         return res
     finally:
         shutil.rmtree(d, ignore_errors=True)
